@@ -427,3 +427,24 @@ Definition res_agrees {A} (eqb : A -> A -> bool) (r : res A) (o : N * option A) 
 Definition G := Build_guid. Definition X := Build_expnodeid.
 Definition render := render_gen false.
 Definition equal := equal_gen false.
+
+(* ---------- the NodeID struct itself: the encoding mask carries the type nibble AND the ExpandedNodeID flags ---------- *)
+(* mask & 0xf = type; 0x80 = NamespaceURI flag, 0x40 = ServerIndex flag (set on the embedded NodeID by NewExpandedNodeID,
+   ExpandedNodeID.Decode and ParseExpandedNodeID("nsu=...")).  String(), StringID() and Equal() look at Type() only. *)
+Record rawid := { r_mask : N; r_ns : N; r_nid : N; r_bid : bytes; r_gid : option guid }.
+Definition view (r : rawid) : nodeid :=
+  match N.land (r_mask r) 15 with
+  | 0 => NTwoByte (r_ns r) (r_nid r)
+  | 1 => NFourByte (r_ns r) (r_nid r)
+  | 2 => NNumeric (r_ns r) (r_nid r)
+  | 3 => NString (r_ns r) (r_bid r)
+  | 4 => NGuid (r_ns r) (r_gid r)
+  | 5 => NOpaque (r_ns r) (r_bid r)
+  | t => NInvalid t
+  end.
+Definition raw_render (r : rawid) : res bytes := render (view r).
+Definition raw_equal (a b : rawid) : res bool := equal (view a) (view b).
+(* SetURIFlag = set_flags 128, SetIndexFlag = set_flags 64 *)
+Definition set_flags (f : N) (r : rawid) : rawid :=
+  {| r_mask := N.lor (r_mask r) f; r_ns := r_ns r; r_nid := r_nid r; r_bid := r_bid r; r_gid := r_gid r |}.
+Definition R := Build_rawid.
